@@ -7,3 +7,9 @@ pub mod common;
 
 #[cfg(all(kani, feature = "c04"))]
 mod c04;
+
+#[cfg(all(kani, any(feature = "c01", feature = "c02")))]
+mod ops;
+
+#[cfg(all(kani, feature = "c07"))]
+mod c07;
